@@ -11,8 +11,12 @@ import (
 func init() {
 	reg("C10.array", ruleArrayMarshalProtocol)
 	reg("C10.root", ruleMarshalRoot)
+	reg("C10.into", ruleMarshalInto)
 
 	regWitness(
+		Witness{Rule: "C10.into", Name: "array-entry-not-reset", File: "parsed_json.go", Old: "\t\t\t// Always move into array.\n\t\t\ti.addNext = 0\n", New: "", Breaks: "`[[1],[2]]` positioned on `[1]` with Advance() marshals as `[[2]]`"},
+		Witness{Rule: "C10.into", Name: "root-entry-not-reset", File: "parsed_json.go", Old: "\t\t\tif isOpenRoot {\n\t\t\t\t// Always move into root.\n\t\t\t\ti.addNext = 0\n\t\t\t}\n", New: "", Breaks: "MarshalJSON on an iterator positioned on a root with Advance() fails"},
+		Witness{Rule: "C10.into", Name: "calcnext-into-ignored", File: "parsed_json.go", Old: "\t\tif !into {\n\t\t\ti.addNext = int(i.cur) - i.off\n\t\t}", New: "\t\ti.addNext = int(i.cur) - i.off", Breaks: "AdvanceInto skips containers"},
 		Witness{Rule: "C10.array", Name: "comma-before-end-test", File: "parsed_array.go", Old: "\t\tif i.PeekNextTag() == TagArrayEnd {\n\t\t\tbreak\n\t\t}\n\t\tdst = append(dst, ',')", New: "\t\tdst = append(dst, ',')\n\t\tif i.PeekNextTag() == TagArrayEnd {\n\t\t\tbreak\n\t\t}", Breaks: "`[1,]` is emitted"},
 		Witness{Rule: "C10.array", Name: "no-closing-bracket", File: "parsed_array.go", After: "func (a *Array) MarshalJSONBuffer(", Old: "\tdst = append(dst, ']')\n\treturn dst, nil", New: "\treturn dst, nil", Breaks: "arrays are emitted without `]`"},
 		Witness{Rule: "C10.root", Name: "closing-root-not-terminating", File: "parsed_json.go", Old: "\t\t\t} else if !isOpenRoot {\n\t\t\t\t// Closing root with nothing open: end of the scope of this iterator.\n\t\t\t\tbreak writeloop\n\t\t\t}\n", New: "\t\t\t}\n", Breaks: "Iter.MarshalJSON on a ParsedJson.ForEach iterator fails with \"no content queued in iterator\""},
@@ -301,4 +305,169 @@ func ruleMarshalRoot(c *Ctx) {
 	c.Check(!bad, "MarshalJSONBuffer:closing-root", p.Pos(fd), "a closing root tag ends the document (or pops the root frame); it never pushes a frame",
 		"when a *closing* root tag (payload <= cursor) arrives with only the sentinel on the stack, the marshaller treats it like an opening root: it advances past the end of the tape, pushes a root frame and then fails with \"no content queued in iterator\""+desc,
 		"Iter.MarshalJSON on the iterator that ParsedJson.ForEach passes to its callback (positioned inside a root, the tape ends with the closing root)")
+}
+
+// C10.into — MarshalJSONBuffer moves *into* every container it opens, whatever positioning call the caller used.
+//
+// Iter.addNext is the distance the next Advance*/AdvanceInto call skips first.  Advance() on a container (or root) leaves
+// addNext = payload − off (skip the whole container); AdvanceInto() leaves 0 (calcNext(true), checked below).  The
+// marshaller emits the opening bracket and then calls AdvanceInto to reach the first member, so addNext must be 0 at that
+// call.  Inside the loop that is guaranteed when every iteration ends with AdvanceInto as its last cursor operation; on
+// the first iteration the value is whatever the caller's last positioning call left, so the handler of an opening tag
+// read from the *entry* state must reset addNext itself before it moves in.
+func ruleMarshalInto(c *Ctx) {
+	p := c.G()
+	fd := p.Func("Iter.MarshalJSONBuffer")
+	cn := p.Func("Iter.calcNext")
+	ai := p.Func("Iter.AdvanceInto")
+	if fd == nil || cn == nil || ai == nil {
+		c.Unresolved("Iter.MarshalJSONBuffer/calcNext/AdvanceInto", "function not found")
+		return
+	}
+	// (1) summary of calcNext(into=true): container and root tags leave addNext = 0
+	cps, ok := p.SymPaths(cn, 10000, nil)
+	if !ok || len(cps) == 0 {
+		c.Undecided("calcNext:paths", p.Pos(cn), "path enumeration failed")
+		return
+	}
+	nInto := 0
+	sumOK := true
+	why := ""
+	for _, sp := range cps {
+		if !sp.Feasible() {
+			continue
+		}
+		tag, into := int64(-1), false
+		for _, cd := range sp.Conds {
+			if cd.Other == "P:into" {
+				into = true
+			}
+			if cd.Other == "" && cd.Op == token.EQL && cd.R.IsConst() && cd.L.String() == "R.t" {
+				tag = cd.R.K
+			}
+		}
+		if !into || (tag != '{' && tag != '[' && tag != 'r') {
+			continue
+		}
+		nInto++
+		last := ""
+		for _, ef := range sp.Effects {
+			if ef.Kind == "store" && ef.Target == "R.addNext" {
+				last = ef.Val.String()
+			}
+		}
+		if last != "0" {
+			sumOK = false
+			why = "calcNext(true) on tag " + string(rune(tag)) + " leaves addNext = " + last
+		}
+	}
+	c.MinCount("calcNext(into) container paths", nInto, 3)
+	c.Check(sumOK, "calcNext:into-zero", p.Pos(cn), "calcNext(true) leaves addNext = 0 on root, object-start and array-start tags", why, "any document with a container, walked with AdvanceInto")
+	// AdvanceInto hands `true` to calcNext on every path that reads a tag
+	aps, ok := p.SymPaths(ai, 10000, nil)
+	okInto, nCalc := true, 0
+	for _, sp := range aps {
+		if !sp.Feasible() {
+			continue
+		}
+		for _, ef := range sp.Effects {
+			if ef.Kind == "call" && ef.Target == "Iter.calcNext" {
+				nCalc++
+				if len(ef.Args) != 1 || ef.Args[0].String() != "true" {
+					okInto = false
+				}
+			}
+		}
+	}
+	c.MinCount("AdvanceInto calcNext calls", nCalc, 1)
+	c.Check(ok && okInto, "AdvanceInto:calcNext(true)", p.Pos(ai), "AdvanceInto computes the next skip with into = true", "AdvanceInto calls calcNext with an argument other than the constant true", "AdvanceInto on an object start skips the whole object")
+
+	// (2) the marshal loop
+	loop := outerLoop(fd)
+	sps := p.LoopSegmentPaths(fd, loop, 100000)
+	if len(sps) == 0 {
+		c.Undecided("MarshalJSONBuffer:into-paths", p.Pos(fd), "no loop paths")
+		return
+	}
+	isCursorCall := func(t string) bool {
+		switch t {
+		case "Iter.Advance", "Iter.AdvanceInto", "Iter.AdvanceIter", "Iter.moveToEnd", "Iter.calcNext", "Iter.Root", "Iter.Object", "Iter.Array":
+			return true
+		}
+		return false
+	}
+	badEntry := map[int64]string{}
+	seenEntry := map[int64]int{}
+	carryOK := true
+	carryWhy := ""
+	nCont := 0
+	for _, sp := range sps {
+		if !sp.Feasible() {
+			continue
+		}
+		tag := int64(-1)
+		closing := false
+		for _, cd := range sp.Conds {
+			if cd.Other != "" {
+				if strings.HasPrefix(cd.Other, "!(R.cur>R.off") {
+					closing = true
+				}
+				continue
+			}
+			if cd.Op == token.EQL && cd.R.IsConst() && cd.L.String() == "R.t" {
+				tag = cd.R.K
+			}
+			if cd.Op == token.LEQ && cd.L.String() == "R.cur" && cd.R.String() == "R.off" {
+				closing = true
+			}
+		}
+		if (tag == '{' || tag == '[' || (tag == 'r' && !closing)) {
+			// entry-state opening tag: the first AdvanceInto must be preceded by addNext = 0
+			reset, moved := false, false
+			for _, ef := range sp.Effects {
+				if ef.Kind == "store" && ef.Target == "R.addNext" {
+					reset = ef.Val.IsConst() && ef.Val.K == 0
+				}
+				if ef.Kind == "call" && ef.Base == "R" && isCursorCall(ef.Target) {
+					moved = true
+					if !reset {
+						badEntry[tag] = condsDesc(sp, 6)
+					}
+					break
+				}
+			}
+			if moved {
+				seenEntry[tag]++
+			}
+		}
+		if sp.Continues {
+			nCont++
+			lastCursor, after := "", false
+			for _, ef := range sp.Effects {
+				if ef.Kind == "call" && ef.Base == "R" && isCursorCall(ef.Target) {
+					lastCursor, after = ef.Target, false
+				}
+				if ef.Kind == "store" && (ef.Target == "R.addNext" || ef.Target == "R.off") && lastCursor != "" {
+					after = true
+				}
+			}
+			if lastCursor != "Iter.AdvanceInto" || after {
+				carryOK = false
+				carryWhy = "an iteration re-enters the loop with last cursor operation `" + lastCursor + "`" + condsDesc(sp, 6)
+			}
+		}
+	}
+	c.MinCount("continuing marshal paths", nCont, 20)
+	c.Check(carryOK, "MarshalJSONBuffer:carry-into", p.Pos(fd), "every iteration that re-enters the write loop ends its cursor work with AdvanceInto (so addNext is 0 on containers inside the loop)", carryWhy, "nested containers")
+	for _, t := range []int64{'r', '{', '['} {
+		key := "MarshalJSONBuffer:enter:" + string(rune(t))
+		if seenEntry[t] == 0 {
+			c.Undecided(key, p.Pos(fd), "no loop path handles this opening tag from the entry state")
+			continue
+		}
+		d, bad := badEntry[t]
+		c.Check(!bad, key, p.Pos(fd), "the handler of opening tag '"+string(rune(t))+"' resets addNext before it moves into the container",
+			"an iterator positioned on a container with Advance() carries addNext = skip-the-container; the handler of '"+string(rune(t))+"' emits the bracket and calls AdvanceInto without resetting it, so the marshaller jumps over the container's content and emits what follows it (`[[1],[2]]` positioned on `[1]` marshals as `[[2]]`)"+d,
+			"it := pj.Iter(); it.AdvanceInto(); it.AdvanceInto(); it.Advance(); it.MarshalJSON() on `[[1],[2]]`")
+	}
 }
